@@ -79,11 +79,13 @@ def judge(case):
             with quiet():
                 w = GridWriter(b, o, t, factor=case["factor"], position_grid_cartesian=case["cartesian"])
                 p = {k: os.path.join(d, k) for k in ("volumes.npy", "borders.npz", "distances.npz", "adjacency.npz", "array.npy")}
-                w.save_volumes(p["volumes.npy"])
-                w.save_borders_array(p["borders.npz"])
-                w.save_distances_array(p["distances.npz"])
-                w.save_adjacency_array(p["adjacency.npz"])
-                w.save_full_grid(p["array.npy"])
+                saves = {"volumes": lambda: w.save_volumes(p["volumes.npy"]), "borders": lambda: w.save_borders_array(p["borders.npz"]),
+                         "distances": lambda: w.save_distances_array(p["distances.npz"]),
+                         "adjacency": lambda: w.save_adjacency_array(p["adjacency.npz"]), "array": lambda: w.save_full_grid(p["array.npy"])}
+                import itertools
+                orders = list(itertools.permutations(sorted(saves)))
+                for name in orders[case["e_seed"] % len(orders)]:      # the files are written in an order that varies per case
+                    saves[name]()
                 r = GridReader()
                 V = np.asarray(r.load_volumes(p["volumes.npy"]), dtype=float)
                 S = r.load_borders_array(p["borders.npz"])
